@@ -185,7 +185,8 @@ def build_plan(choice: Choice, tier: str, family: str):
     # a functor that uses a short-lived child process of its own for some items (a helper process, a nested map)
     p["functor_child"] = d(12, "functor.child") == 11
     p["consumer_pause"] = d(3, "consumer.pause")    # 0 none, 1 yield between next(), 2 defer sometimes
-    p["pipe_delay"] = d(2, "pipe.delay") == 1
+    # asynchronous queues (if the code uses any for its control messages) deliver late; always in the tail-retirement plans
+    p["pipe_delay"] = d(2, "pipe.delay") == 1 or p["tail_retire"]
     g = d(10 if thorough else 20, "granularity")
     p["granularity"] = "sync" if g in (1, 2) else ("opcode" if g == 3 else "line")
     p["until_ready"] = 0
